@@ -131,6 +131,7 @@ def q12_no_event_dropped(F, R, M):
     R.count('poll_users', n)
 
 
+@shared_rule
 def poll_rule(F, R, rule):
     """Q1's poll obligations under another property's rule id: after every return of a poll each buffer is back in the queue
     under its own descriptor (the invariant that lets pop trust a device-reported token)."""
